@@ -12,7 +12,7 @@ LEVEL_TEXT = ("The finite space length 0..223 x 8 sequence-counter states is enu
 TECHNIQUE = "exhaustive enumeration (length x counter) with a frame-validity predicate and decode round trip; Hypothesis message lists"
 RULE = ("(a) every length 0..223 x every counter state 0..7 x fillings through encode_ebyte/usb/yacht_devices of an encoder whose per-PGN "
         "payload function is stubbed on the instance (PGN 126720/130816 fallbacks); (b) every encodable fast-packet definition with "
-        "generated accepted values through the unstubbed path; (c) Hypothesis lists of 1..20 consecutive messages; non-trivial = length on "
+        "generated accepted values through the unstubbed path; (c) Hypothesis lists of 1..20 consecutive messages over one or several streams, into decoders that are fresh or pre-loaded with 7..4100 abandoned partial messages, with and without real time passing between frames; non-trivial = length on "
         "a frame boundary (<=6, 6+7k, 6+7k+-1, 223) or counter >= 6 or a list with wrap; distinct = (pgn, length, counter, filling, format)")
 ASSUMPTIONS = [
     "arbitrary payload bytes are observable only through the BINARY field of the proprietary fallback definitions; payloads of >= 2 bytes "
